@@ -231,6 +231,13 @@ class Report:
         for k, v in sorted(self.known_hits.items()):
             print(f"KNOWN-FINDING: property={self.prop} {k}: {v['finding']['title']} "
                   f"[{v['count']} case(s) this run]")
+        dump = os.environ.get("VERIF_DUMP_ALL")
+        if dump:
+            with open(dump, "w") as fh:
+                for v in self.violations:
+                    fh.write(json.dumps(v, default=str) + "\n")
+                for k, v in self.known_hits.items():
+                    fh.write(json.dumps({"known": k, "count": v["count"], "witness": v["witness"]}, default=str) + "\n")
         if self.violations:
             rdir = os.path.join(VERIF, "replays", self.prop)
             os.makedirs(rdir, exist_ok=True)
@@ -260,10 +267,15 @@ def _matches(k: dict, kind: str, witness: dict) -> bool:
     sig = k.get("signature", {})
     if sig.get("kind") and sig["kind"] != kind:
         return False
+    if sig.get("kind_regex") and not re.search(sig["kind_regex"], kind):
+        return False
     for fld, want in sig.get("where", {}).items():
         have = witness.get(fld)
         if isinstance(want, dict) and "regex" in want:
             if have is None or not re.search(want["regex"], str(have), re.S):
+                return False
+        elif isinstance(want, dict) and "contains" in want:
+            if not isinstance(have, (list, tuple, set)) or want["contains"] not in have:
                 return False
         elif isinstance(want, dict) and "in" in want:
             if have not in want["in"]:
